@@ -190,3 +190,12 @@ Proof.
   destruct (l <=? n) eqn:E; [apply Z.leb_le in E; lia|]. cbn [andb].
   rewrite fallback_for_rule. reflexivity.
 Qed.
+
+(** ---------- --complement: an unresolvable bound is not dropped; it stays in the list, so
+    the output loop prints its fallback in its place or fails the record *)
+Theorem C13_complement_keeps l n b :
+  In (Bound b) l -> bound_nz b -> ~ resolves b n -> In (Bound b) (complement_items l n).
+Proof.
+  intros Hin Hnz Hr. unfold complement_items. apply in_flat_map. exists (Bound b). split; [exact Hin|].
+  unfold complement_bound. rewrite (unresolved_none b n Hnz Hr). left. reflexivity.
+Qed.
